@@ -1032,14 +1032,14 @@ def summary_family(base, cat):
 
 def ring_ids(cat, tier, seed):
     """base ids of the degenerate rings of this tier: thorough = the whole catalogue on ext3_1k (no checksums) with both
-    fills and on ext4_1k with v3 checksums; quick = a seeded choice of 3 rings (one of them descriptors only)"""
+    fills and on ext4_1k with v3 checksums; quick = a seeded choice of 2 rings (one of them descriptors only, the other on ext4_1k with v3 checksums)"""
     rings = sorted(",".join(r) for r in cat["rings"])
     fills = sorted(cat["ring_fill"])
     if tier == "thorough":
         return (["ring:ext3_1k:0:%s:%s" % (f, r) for r in rings for f in fills] + ["ring:ext4_1k:3:junk:%s" % r for r in rings])
     rng = random.Random("%d/rings" % seed)
     donly = [r for r in rings if set(x.split(".")[0] for x in r.split(",")) <= {"D1", "X"}]
-    pick = [rng.choice(donly)] + rng.sample([r for r in rings if r not in donly], 2)
+    pick = [rng.choice(donly)] + rng.sample([r for r in rings if r not in donly], 1)
     out = []
     for i, r in enumerate(pick):
         if i == 1:
@@ -1049,10 +1049,14 @@ def ring_ids(cat, tier, seed):
     return out
 
 
+PAIR_CAP = {"uhdr": 300, "qhdr2": 400}
+
+
 def reader_families(bases, cat, tier, seed):
     """The reader-bound part of the universe.  thorough: every element on every undo / qcow2 base and every file system
     profile.  quick: the key catalogue, the single-field qcow2 catalogue and the summary catalogue on ONE base each
-    (rotating with the seed), the pair catalogues on all bases (sampled by sample_quick)."""
+    (rotating with the seed), the pair catalogues on all bases (sampled by sample_quick).  Of the pair catalogues both
+    tiers use the same seeded subset of PAIR_CAP elements per base."""
     U = []
     names = set(f for a in cat["undo_hdr"] for f in a) | set(f for a in cat["undo_scalings"].values() for f in a)
     if names != set(UNDO_HDR_AT) or set(e["field"] for e in cat["undo_key"]) != set(UNDO_KEY_AT) or \
@@ -1061,13 +1065,23 @@ def reader_families(bases, cat, tier, seed):
     undo = [b for b in bases.values() if b.kind == "undo"]
     qcow = [b for b in bases.values() if b.kind == "qcow"]
     fs = [b for b in bases.values() if b.kind == "fs"]
+    def capped(pairs, n, tag):
+        # the pair catalogues are large: both tiers work on the same seeded subset of n pairs per base (quick samples from it)
+        if len(pairs) <= n:
+            return pairs
+        pairs = sorted(pairs, key=lambda u: u["id"])
+        random.Random("%d/paircap/%s" % (seed, tag)).shuffle(pairs)
+        return sorted(pairs[:n], key=lambda u: u["id"])
     for i, b in enumerate(undo):
-        U += undo_hdr_family(b, cat)
+        h = undo_hdr_family(b, cat)
+        U += [u for u in h if u["nfields"] == 1] + capped([u for u in h if u["nfields"] == 2], PAIR_CAP["uhdr"], b.id)
         if tier == "thorough" or i == seed % len(undo):
             U += undo_key_family(b, cat)
     for i, b in enumerate(qcow):
         q = qcow_hdr_family(b, cat)
-        U += [u for u in q if u["family"] == "qhdr2" or tier == "thorough" or i == seed % len(qcow)]
+        U += capped([u for u in q if u["family"] == "qhdr2"], PAIR_CAP["qhdr2"], b.id)
+        if tier == "thorough" or i == seed % len(qcow):
+            U += [u for u in q if u["family"] == "qhdr1"]
     for i, b in enumerate(fs):
         if tier == "thorough" or i == seed % len(fs):
             U += summary_family(b, cat)
@@ -1099,7 +1113,7 @@ def universe(bases, tier, seed):
                 continue
         if base.kind in ("jrn", "undo", "qcow", "extj"):
             U.append(asis(base))
-        if base.kind != "raw":
+        if base.kind not in ("raw", "ring"):           # the rings are elements of the reader-bound catalogue (reader_families)
             S1 = structured(base, seed, tier, limit=LIMIT[tier].get(base.kind))
             U += S1
             U += multi_field(S1, seed, bid, {"quick": 3, "thorough": 24 if base.kind != "jrn" else 4}[tier])
